@@ -6,7 +6,7 @@ SPEC = dict(
     rule="histories of 2..13 events (writes, and upload rounds with writes landing before the index read / between index read and data copy, "
          "LastIndex/Provide/CurrentID failures, storage failures before or after reading) against a scripted provider+storage with 6 kinds of initial "
          "storage id, plus histories on a real single-node store through the real store.Provider in all four vacuum/compress configurations; "
-         "a history is non-trivial when it has a failed upload followed later by a round that uploads a change and then by a round that finds nothing to do; "
+         "in the non-vacuum configurations rounds that find the store's snapshot gate held by a real user backup (a write committed just before exists only in the WAL) or race user snapshots; a history is non-trivial when it has a failed upload followed later by a round that uploads a change and then by a round that finds nothing to do; "
          "distinct by the JSON of the history",
     exhaustive=False,
     trusted=["SQLite/raft/gzip inside Store.Backup are not modelled: Provide is 'a copy of the database as it is when Provide runs' (checked on the real store by opening every uploaded object)",
@@ -14,9 +14,9 @@ SPEC = dict(
              "a failed StorageClient.Upload leaves the stored object unchanged (the scripted storage behaves so)"],
     assumptions=["raft indexes of committed changes are strictly increasing (premises incr / wf_evs)",
                  "one uploader, rounds do not overlap (Uploader.Start runs them sequentially)"],
-    level_text="All eight theorems hold for every world, every failure combination and every history of any length (invariant over histories); "
+    level_text="All theorems hold for every world, every failure combination and every history of any length (invariant over histories); "
                "the same round/step functions are evaluated on every driver history and compared call by call (LastIndex, Provide, CurrentID, Upload label+content), "
-               "error result, lastIndex and stored object with the real Uploader.",
+               "error result, lastIndex, stored object and number of Provide attempts with the real Uploader and Provider.",
     level_note="Model = Uploader.upload + Provider.LastIndex/Provide transcribed over an abstract database of change indexes; tie = differential run, fake and real store; Store.Backup internals trusted but sampled.",
     technique="Coq invariant proof over histories + model/implementation differential run with fault injection; uploaded objects opened as SQLite databases",
     design_ref="6/C37",
